@@ -240,6 +240,12 @@ def run_case(case):
                 res["n"] += 1
                 res["nontrivial"] += 1 if len(seq) > 1 else 0
                 for i, q in enumerate(seq):
+                    if len(q) == 4:  # history only: a query outside the catalogue (temperature differences), its own answer is not judged
+                        try:
+                            answer(tuple(q[:3]))
+                        except Exception:  # noqa
+                            pass
+                        continue
                     got, want = answer(q), ref_answer(q)
                     ok = (isinstance(got, tuple) and want == "EXC") or got == want
                     if not ok:
@@ -255,6 +261,12 @@ def replay(case):
         out = []
         seq = [tuple(x) for x in case["only"]]
         for i, q in enumerate(seq):
+            if len(q) == 4:
+                try:
+                    answer(tuple(q[:3]))
+                except Exception:  # noqa
+                    pass
+                continue
             got, want = answer(q), ref_answer(q)
             if not ((isinstance(got, tuple) and want == "EXC") or got == want):
                 out.append(viol(dict(kind="units_history", func=q[0]), f"query {q} answered {got} (reference {want}) after {seq[:i]}", case))
@@ -274,6 +286,11 @@ def run(tier, seed, agg):
     sub = qs if tier == "thorough" else [q for q in qs if q[1] != q[2]]
     for q in sub:
         cases.append(dict(kind="seqs", depth=depth, firsts=[q]))
+    # histories that start with a query outside the catalogue which the unit library refuses although the dimensions agree
+    # (a temperature against a temperature difference): only the later answers are judged
+    for f in FUNCS:
+        for a, b in (("degC", "delta_degC"), ("delta_degC", "degC"), ("degF", "delta_degF"), ("delta_degC", "K")):
+            cases.append(dict(kind="seqs", depth=depth, firsts=[[f, a, b, "history_only"]]))
     k = seed % len(cases)
     for r in pmap(run_case, cases[k:] + cases[:k]):
         agg.add(r)
